@@ -24,7 +24,8 @@ LOCAL_DEFS = ("#[allow(dead_code, non_camel_case_types)] pub struct Option; #[al
               "#[allow(dead_code)] pub trait Eq {} #[allow(dead_code)] pub trait Fn {} #[allow(dead_code)] pub trait Clone {} #[allow(dead_code)] pub enum Ordering {} "
               "#[allow(dead_code)] pub struct Result; #[allow(dead_code)] pub trait Default {} #[allow(dead_code)] pub trait PartialEq {} #[allow(dead_code)] pub trait Ord {} "
               "#[allow(dead_code)] pub trait PartialOrd {} #[allow(dead_code)] pub trait Hash {} #[allow(dead_code)] pub trait Debug {} #[allow(dead_code)] pub trait Sized {} "
-              "#[allow(dead_code)] pub trait Copy {} #[allow(dead_code)] pub trait Into {} #[allow(dead_code)] pub struct Formatter; ")
+              "#[allow(dead_code)] pub trait Copy {} #[allow(dead_code)] pub trait Into {} #[allow(dead_code)] pub struct Formatter; "
+              "#[allow(dead_code)] pub mod core {} #[allow(dead_code)] pub mod std {} #[allow(dead_code)] pub mod alloc {} ")
 
 
 def introduced_identifiers():
@@ -81,13 +82,13 @@ def make_map(src, scheme, rnd, dictionary):
             if lt in ("'l",):
                 m["'l"] = "'a"
         # variants named like the trait methods the generated code calls (`Self::clone` must not be read as a variant)
-        for v in variants:
-            n = pick(METHOD_NAMES)
-            if n:
-                m[v] = n
+        # (in this fixed order, so that every family sees `clone`, `eq`, `cmp`, .. on its first variants in every run)
+        for v, n in zip(variants, [x for x in METHOD_NAMES if x not in ids and x not in used and x not in DRIVER_NAMES]):
+            m[v] = n
+            used.add(n)
     elif scheme == "case_pairs":
         # names that differ only in letter case must stay different names
-        pairs = [("dx", "dX"), ("hash", "Hash"), ("clone", "Clone"), ("t", "T"), ("eq", "EQ"), ("o", "O")]
+        pairs = [("dx", "dX"), ("hash", "Hash"), ("clone", "Clone"), ("t", "T"), ("eq", "EQ"), ("o", "O"), ("_x", "x"), ("_v", "v_"), ("r#type", "type_")]
         rnd.shuffle(pairs)
         for k in range(0, len(fields) - 1, 2):
             a, b = pairs[(k // 2) % len(pairs)]
